@@ -8,7 +8,7 @@
     the code after the fix commit "coinswap routed swaps return the intermediate standard coin
     to the sender" (before it, leg 1 of a routed swap paid the recipient: corpus/C02). *)
 From Irismod Require Import Coinswap.Model Coinswap.Check Coinswap.ProofsArith Coinswap.ProofsSpec
-  Coinswap.Proofs Coinswap.ProofsValue Coinswap.ProofsSound Coinswap.ProofsLpt Coinswap.ProofsConserve Coinswap.ProofsEncode Coinswap.LinkParams.
+  Coinswap.Proofs Coinswap.ProofsValue Coinswap.ProofsSound Coinswap.ProofsLpt Coinswap.ProofsConserve Coinswap.ProofsEncode.
 
 Local Open Scope Z_scope.
 
@@ -209,30 +209,7 @@ Theorem history_balance_sheet :
 Proof. exact history_conserves_lemma. Qed.
 Print Assumptions history_balance_sheet.
 
-(** ** parameters (link to the C16 model of group params, [Params/Model.v])
-
-    what a successful [MsgUpdateParams] stores is accepted by the C16 model's [validate_cs] (read with
-    every field present and a valid creation-fee denom class [dc]) and keeps the fee ranges [Inv]
-    needs; together with [transfer]-free [exec_update_params] this is why every history theorem of C01 /
-    C02 holds across parameter changes *)
-Theorem stored_params_are_validated :
-  forall (s : state) (auth : Z) (p : params) (s' : state) (r : list Z) (dc : Z),
-    Params.Model.denom_valid dc = true ->
-    exec_update_params s auth p = Ret (s', r) ->
-    Params.Model.validate_cs (to_cs (par s') dc) = Ok
-    /\ 0 <= p_fee (par s') < P18 /\ 0 <= p_ufee (par s') <= P18.
-Proof. exact update_params_validated. Qed.
-Print Assumptions stored_params_are_validated.
-
-(** conversely: a parameter set the C16 validator accepts (valid denom index, creation fee within the
-    255 bits of the fix "coinswap Params.Validate rejects a pool creation fee amount of more than
-    255 bits") is one [MsgUpdateParams] accepts *)
-Theorem validated_params_are_accepted :
-  forall (p : params) (dc : Z),
-    0 <= p_cdenom p -> p_camt p < 2 ^ 255 ->
-    Params.Model.validate_cs (to_cs p dc) = Ok -> params_valid p = true.
-Proof. exact validate_cs_params_valid. Qed.
-Print Assumptions validated_params_are_accepted.
+(** ** parameters *)
 
 (** a parameter change is made only by the authority, only with valid values, and moves no coin *)
 Theorem update_params_settlement :
@@ -411,6 +388,3 @@ Proof.
   - vm_compute. reflexivity.
   - vm_compute. reflexivity.
 Qed.
-
-Example c02_valid_denom_class : Params.Model.denom_valid 1 = true.
-Proof. reflexivity. Qed.
